@@ -162,7 +162,7 @@ pub fn run_c07(ctx: &mut Ctx) {
             check07(ctx, &mut r, &f, *p, *e, base, 0);
         }
     }
-    let n = ctx.n(250_000, 40_000_000);
+    let n = ctx.n(500_000, 40_000_000);
     random_cases!(ctx, n, |r, _i| {
         let base = gen_flags(&mut r, ClvmFlags::all());
         // programs are generated for the *lenient* dialect so that a good share succeeds
@@ -222,7 +222,7 @@ fn check11(ctx: &mut Ctx, r: &mut Rng, f: &Forest, prog: Id, env: Id, base: Clvm
 pub fn run_c11(ctx: &mut Ctx) {
     // direct operator layer: every operator on generated argument lists under both models
     crate::mon::ops::run_c11_ops(ctx);
-    let n = ctx.n(300_000, 40_000_000);
+    let n = ctx.n(900_000, 40_000_000);
     random_cases!(ctx, n, |r, _i| {
         let base = gen_flags(&mut r, ClvmFlags::all());
         let mut cfg = ProgCfg::full(base & !ClvmFlags::NEW_COST_MODEL);
